@@ -215,7 +215,9 @@ fn enc_spell_subs(v: &mut Vec<u64>, ts: &[(String, String, String)], g: bool) {
     }
 }
 
-const WORDS: &[&str] = &["a", "ab", "b", "ba", "abc", "c", "A", "\u{e4}b", "a\u{301}"];
+// incl. grapheme clusters of several code points that NFKC does NOT compose (x + circumflex, a flag): in code-point
+// mode positions after them differ from grapheme positions
+const WORDS: &[&str] = &["a", "ab", "b", "ba", "abc", "c", "A", "\u{e4}b", "a\u{301}", "x\u{302}", "\u{1F1E9}\u{1F1EA}y"];
 
 fn words(ctx: &mut Ctx, n: usize) -> Vec<String> {
     (0..n).map(|_| WORDS[ctx.rng.random_range(0..WORDS.len())].to_string()).collect()
@@ -342,14 +344,16 @@ pub fn run_c13(ctx: &mut Ctx) {
         let mut ts = vec![];
         for _ in 0..k {
             let n = ctx.rng.random_range(0..=8);
-            let skel: Vec<char> = (0..n).map(|_| ['a', 'b', 'c', '\u{e4}'][ctx.rng.random_range(0..4)]).collect();
+            // atoms incl. grapheme clusters of several code points that NFKC does not compose: in code-point mode the
+            // operation indices after them differ from the grapheme indices
+            let skel: Vec<&str> = (0..n).map(|_| ["a", "b", "c", "\u{e4}", "a", "b", "x\u{302}", "\u{1F1E9}\u{1F1EA}"][ctx.rng.random_range(0..8)]).collect();
             let mut space = |ctx: &mut Ctx| {
                 let mut s = String::new();
                 for (j, c) in skel.iter().enumerate() {
                     if j > 0 && ctx.rng.random_bool(0.35) {
                         s.push(' ');
                     }
-                    s.push(*c);
+                    s.push_str(c);
                 }
                 s
             };
